@@ -319,8 +319,8 @@ func (w *proxyWorld) originHandler(rw http.ResponseWriter, req *http.Request) {
 			e.Cond = true
 			if strings.Contains(v, "client-marker") || strings.Contains(v, "01 Jan 1999") {
 				e.Marker = true
-			} else if t, err := http.ParseTime(v); err == nil && t.Equal(time.Date(1999, 1, 1, 0, 0, 0, 0, time.UTC)) {
-				e.Marker = true // the client's date in one of the obsolete HTTP date forms
+			} else if t, err := http.ParseTime(v); err == nil && (t.Equal(time.Date(1999, 1, 1, 0, 0, 0, 0, time.UTC)) || t.Equal(time.Date(2038, 1, 1, 0, 0, 0, 0, time.UTC))) {
+				e.Marker = true // the client's date (past or future) in one of the obsolete HTTP date forms
 			}
 		}
 	}
